@@ -463,33 +463,4 @@ def ppf (F : Fns) (d : Params) (q0 : Float) : Float × Float :=
       if cy < q then lo := y else hi := y
     return (v, margin)
 
-/-- `average_tuning_curve(n, minimize)` with the default atol: returns (value, refinements, |err−atol|/atol at stop) -/
-def avgCurve (F : Fns) (d : Params) (n : Float) (minimize : Bool) : Float × Nat × Float := Id.run do
-  let lo := d.a - 6.0 * d.o
-  let hi := d.b + 6.0 * d.o
-  let atol := 1e-6 * (hi - lo)
-  let g := fun (x : Float) =>
-    let ind := if x > 0.0 then 1.0 else 0.0
-    if minimize then ind - (1.0 - F.pow (1.0 - cdf F d x) n) else ind - F.pow (cdf F d x) n
-  let mut h := hi - lo
-  let mut ys := 0.5 * h * (g lo + g hi)
-  let mut iters := 0
-  let mut rel := 1.0
-  for i in [1:31] do
-    h := h * 0.5
-    let cnt := 2 ^ (i - 1)
-    let mut s := 0.0
-    for j in [0:cnt] do
-      s := s + g (lo + (2.0 * j.toFloat + 1.0) * h)
-    let ysPrev := ys
-    ys := 0.5 * ys + h * s
-    let err := (ys - ysPrev).abs / 3.0
-    iters := i
-    if i > 3 && err < atol then
-      rel := (err - atol).abs / atol
-      break
-    if i > 3 then rel := min rel ((err - atol).abs / atol)
-    if i >= 17 then break   -- probe guard
-  return ((if lo > 0.0 then lo else 0.0) + (if hi < 0.0 then hi else 0.0) + ys, iters, rel)
-
 end Opda.NoisyF
